@@ -90,14 +90,20 @@ def labelOk (f : Field) : Bool :=
           !startsWith (normLabel f.label) "unknown".toList
    | _ => false)
 
-def singleSpaced (s : Str) : Bool := !s.isEmpty && plain s && trimmed s && (splitChar ' ' s).all (!·.isEmpty) && (splitWs s).length == (splitChar ' ' s).length
+/-- single-spaced words: the only white space is U+0020, one at a time, none at either end -/
+def singleSpaced (s : Str) : Bool :=
+  !s.isEmpty && plain s && trimmed s && (splitChar ' ' s).all (!·.isEmpty) && s.all (fun c => !isSpace c || c == ' ')
+
+/-- the first word is ASCII (whether a run of non-ASCII digits is a year range is left open) -/
+def asciiFirst (s : Str) : Bool := ((splitChar ' ' s).headD []).all fun c => c.toNat < 128
 
 def fieldOk (f : Field) (verbFirst : Bool := false) : Bool :=
   labelOk f && plain f.first && trimmed f.first &&
   (match f.kind with
    | 0 => !f.first.isEmpty && f.conts.isEmpty
    | 1 => singleSpaced f.first && f.conts.all (fun l => l.kind == 0 && singleSpaced l.content && !headP (· == '.') l.content)
-   | 2 => singleSpaced f.first && f.conts.all (fun l => l.kind == 0 && singleSpaced l.content && !headP (· == '.') l.content)
+   | 2 => singleSpaced f.first && asciiFirst f.first &&
+          f.conts.all (fun l => l.kind == 0 && singleSpaced l.content && asciiFirst l.content && !headP (· == '.') l.content)
    | 3 => !f.first.isEmpty && blockOk f.conts verbFirst
    | 4 => blockOk f.conts verbFirst && (!f.first.isEmpty || !f.conts.isEmpty)
    | 5 => !f.first.isEmpty && f.conts.all (fun l => l.kind == 0 && tlineOk l)
